@@ -1,0 +1,16 @@
+//go:build verif
+
+package gonnx
+
+import "github.com/advancedclimatesystems/gonnx/onnx"
+
+// VerifParameters returns the model's weights (read-only use by the verification harness).
+func (m *Model) VerifParameters() Tensors {
+	return m.parameters
+}
+
+// VerifModelProto returns the protobuf the model was built from (read-only use by the
+// verification harness: fingerprinting before and after Runs).
+func (m *Model) VerifModelProto() *onnx.ModelProto {
+	return m.mp
+}
